@@ -36,13 +36,20 @@ def build(thorough):
     for nc, rts, pins in plan:
         for rt in rts:
             for ok in bits(pins):
-                add('rank', f'NC={nc},{rt}' + (f',ok={ok}' if ok else ''), dict(VH_NC=nc, VH_RT=rt, VH_OK=ok))
+                env = dict(VH_NC=nc, VH_RT=rt, VH_OK=ok)
+                label = f'NC={nc},{rt}' + (f',ok={ok}' if ok else '')
+                if nc >= 4 and ok.count('1') >= 4:
+                    # the expensive corner (nearly all models eligible): also split on cut-off / penalties present
+                    for cp in bits(2):
+                        add('rank', label + f',cut={cp[0]},pen={cp[1]}', dict(env, VH_CUT=cp[0], VH_PEN=cp[1]))
+                else:
+                    add('rank', label, env)
     # LRT branch: (candidates, parents, cutoff mode, ok pins, no-NaN)
     if thorough:
         lrt = [(1, 'base', cm, '', 0) for cm in (0, 1, 2)]
         lrt += [(2, par, cm, ok, 0) for par in ('base', 'chain', 'sym', 'symobj') for cm in (0, 1, 2)
                 for ok in bits(1)]
-        lrt += [(3, par, cm, ok, 1) for par, cm in (('base', 0), ('chain', 1), ('sym', 2)) for ok in bits(4)]
+        lrt += [(3, par, cm, ok, 1) for par, cm in (('base', 0), ('chain', 1)) for ok in bits(4)]
     else:
         lrt = [(1, 'base', cm, '', 0) for cm in (0, 1, 2)]
         lrt += [(2, 'base', cm, '', 0) for cm in (0, 1, 2)]
